@@ -1171,6 +1171,7 @@ class _FixedSecrets:
     def next(self, v):  # a new draw under test: forget what was served for the previous one
         self._next = v
         self.served = []
+        self.below = []
 
     def token_bytes(self, n=32):
         assert n == 6, n
@@ -1180,6 +1181,14 @@ class _FixedSecrets:
         d = self.next if k == 0 else bytes([(0x21 + 7 * k) & 0xFF, 0x43, 0x15]) + self.next[3:]
         self.served.append(d)
         return d
+
+    def randbelow(self, n):
+        # an implementation that draws an integer instead of bytes: the draw under test read as a little-endian number
+        # (later draws differ, as above)
+        k = len(self.below)
+        self.below.append(n)
+        v = int.from_bytes(self.next[:3], 'little') + 0x1F3B7 * k
+        return v % n
 
 
 def rpa_raw_space(quick: bool, irk_index: int, backend: str):
@@ -1203,9 +1212,18 @@ def rpa_eval(bc, fs, Address, AddressResolver, irk, ident, irk2, ident2, own_aes
     used = fs.served[-1] if fs.served else fs.next
     if len(fs.served) > 1:
         st.count('draws_rejected_by_generate', len(fs.served) - 1)
-    want_prand = bytes([used[0], used[1], (used[2] & 0x3F) | 0x40])
-    want_hash = own_aes.encrypt(bytes(13) + want_prand[::-1])[-3:][::-1]
     ab = bytes(addr)
+    if fs.served:
+        want_prand = bytes([used[0], used[1], (used[2] & 0x3F) | 0x40])
+    else:
+        # the random part was not taken from token_bytes (e.g. drawn as an integer): judged by what the specification says
+        # about a prand - top bits 01, random part neither all zeros nor all ones - and by the hash that goes with it
+        want_prand = ab[3:6]
+        part = want_prand[0] | want_prand[1] << 8 | (want_prand[2] & 0x3F) << 16
+        if len(ab) != 6 or want_prand[2] & 0xC0 != 0x40 or part in (0, 0x3FFFFF):
+            return ('generate', f'generate_private_address gave {ab.hex()}: its prand {want_prand.hex()} is not a legal one (top bits 01, random part not all zeros / ones)')
+        st.count('prands_not_drawn_as_bytes')
+    want_hash = own_aes.encrypt(bytes(13) + want_prand[::-1])[-3:][::-1]
     if ab != want_hash + want_prand:
         return ('generate', f'generate_private_address gave {ab.hex()} for raw draw {bytes(used).hex()}, expected hash||prand = {(want_hash + want_prand).hex()}')
     if not addr.is_resolvable:
@@ -1353,6 +1371,8 @@ def hist_run(seq, config, draws, backend, Address, AddressResolver, fs, aes):
         if sym.startswith('gen'):
             irk = HIST_IRK_A if sym == 'genA1' else HIST_IRK_X
             p1 = _prand_of(draws[0])
+            if not fs.served and len(ab) == 6 and ab[5] & 0xC0 == 0x40 and (ab[3] | ab[4] << 8 | (ab[5] & 0x3F) << 16) not in (0, 0x3FFFFF):
+                p1 = ab[3:6]  # the random part was not drawn as bytes: a legal prand of the implementation's choosing
             want_ab = aes[irk].encrypt(bytes(13) + p1[::-1])[-3:][::-1] + p1
             if ab != want_ab:
                 return (pos, sym, pos > 0, f'generate_private_address gave {ab.hex()}, expected {want_ab.hex()}')
@@ -1497,7 +1517,17 @@ def history_ops(family: str, backend: str):
         def gen(irk, raw):
             fs.next = bytes(raw) + b'\x01\x02\x03'
             a = Address.generate_private_address(irk)
-            return (bytes(a), bid(res1.resolve(a)), bid(res2.resolve(a)))
+            got = (bytes(a), bid(res1.resolve(a)), bid(res2.resolve(a)))
+            if not fs.served and len(got[0]) == 6:
+                # the random part was not drawn as bytes: the address is judged by its own prand (legal, and the hash and
+                # the resolutions that go with it); a conforming result counts as the reference result
+                pa = got[0][3:6]
+                part = pa[0] | pa[1] << 8 | (pa[2] & 0x3F) << 16
+                ha = ref_ah(irk, pa)
+                own = (ha + pa, bytes(id1) if ref_ah(irk1, pa) == ha else None, bytes(id2) if ref_ah(irk2, pa) == ha else None)
+                if pa[2] & 0xC0 == 0x40 and part not in (0, 0x3FFFFF) and got == own:
+                    return gen_expected(irk, raw)
+            return got
 
         def gen_expected(irk, raw):
             prand = _prand_of(raw)
